@@ -163,7 +163,7 @@ func TestC06(t *testing.T) {
 		"contains a label reference; distinct = hash(case).",
 		func(r *rig.Run) {
 			ev := r.Ev
-			r.Rapid("rapid", rig.Pick(20000, 100000), func(t *rapid.T) {
+			r.Rapid("rapid", rig.Pick(40000, 150000), func(t *rapid.T) {
 				c := c06Case{Listing: rapid.Bool().Draw(t, "listing")}
 				c.Ops = asmcat.GenHistory(t, asmcat.GenOpts{MaxOps: rig.Pick(40, 120), Labels: true, Data: true, Comments: true, SetBase: true, Assume: true})
 				r.Check(t, "rapid", c, func() error { return c06Check(c) })
